@@ -13,6 +13,8 @@ ENGINES = [
      "kind_free_text": "integration rules over exact rationals in TLA+, lattice enumerated by TLC, evaluated on the library's real step code"},
     {"name": "storage", "path": "spec/Storage.tla spec/Scen_Storage.tla vh/storedrv.py", "serves_properties": ["C15"],
      "kind_free_text": "TLA+ model of the time-series storage and npz off-loading; configuration product enumerated by TLC and run on the real code"},
+    {"name": "addressing", "path": "spec/Addressing.tla spec/Trace_Addressing.tla vh/addrdrv.py vh/netbuild.py", "serves_properties": ["C10"],
+     "kind_free_text": "TLA+ model of slot allocation; address tables of real Systems validated by TLC"},
     {"name": "connectivity", "path": "spec/Connectivity.tla spec/Trace_Connectivity.tla spec/Scen_Connectivity.tla vh/conndrv.py vh/netbuild.py",
      "serves_properties": ["C12"], "kind_free_text": "graph definitions in TLA+ evaluated by TLC on logged graphs of real Systems; ConnMan model-checked"},
     {"name": "lifecycle", "path": "spec/Lifecycle.tla spec/Trace_Lifecycle.tla spec/Scen_Lifecycle.tla vh/lifecycle.py vh/infeasible.py",
@@ -42,6 +44,17 @@ CHECKS = {
              "trace is validated by TLC with the property formulas evaluated at every step.",
         note=TRUSTED + "Newton outcomes are abstracted to classes in the model; 1 model unit = 1e-5 s on replay; quick tier replays a "
                        "seeded sample of the TLC-enumerated space (thorough: up to 12000)."),
+    "C10": dict(
+        engine="addressing", design_ref="DESIGN.md 4 (C10)",
+        technique="TLC model checking of Addressing (block allocation, two rounds) + generated and stock Systems observed after "
+                  "both addressing phases + TLC trace validation of the address tables",
+        text="The allocation design is model-checked for bijection and for the second round keeping the first; address tables of "
+             "generated systems (shuffled device orders, int/str/auto idx, zero-based bus idx, collated storage, optional "
+             "remote-bus fields) and of stock cases are recorded after set-up and after TDS.init and TLC evaluates bijection, "
+             "continuity, 'external variables and parameters resolve to the device named by the index field', slot names and the "
+             "agreement of model / group / global views on them.",
+        note=TRUSTED.replace("vh/tdsdrv.py: ranks of floats, booleans computed on floats", "vh/addrdrv.py: address lists, expected parent addresses resolved through the group registry")
+             + "Slot names are compared with the '<var> <Model> <idx>' convention. Output-selection sub-indices are C15's."),
     "C12": dict(
         engine="connectivity", design_ref="DESIGN.md 4 (C12)",
         technique="TLC model checking of ConnMan + TLC-enumerated graphs (all K3, K4 branch patterns) built as real Systems + "
